@@ -123,35 +123,125 @@ class CFG:
 
     # ------------------------------------------------------------------ boolean flags
     def _prune_flag_tests(self) -> None:
-        """A local that is only ever assigned True / False / None is a *flag*.  Which constants can reach a test of it is a
-        tiny forward data-flow problem; an outcome no reaching constant selects is removed from the graph (e.g. in the
-        exception copy of `finally: if not connected: release()` only `connected = False` arrives, so the release is on the
-        path).  Path queries then respect such flags instead of treating every test as undecided."""
+        """Path sensitivity for *flag* locals.  A local that is bound only by plain assignments (`v = <expr>`) carries, on
+        every edge, a small set of abstract values: the constants assigned to it, "some object that is not None" (an
+        f-string, a display, ...), or "anything" (any other right-hand side).  Which values reach a test of the local
+        (`v`, `v is None`, `v is not None`, `v == K`, `v != K`) is a tiny forward data-flow problem:
+
+        * an outcome that no reaching value selects is removed from the graph (in the exception copy of
+          `finally: if not connected: release()` only `connected = False` arrives, so the release is on the path);
+        * an edge *into* the test on which every value selects the same outcome is threaded to that outcome (after
+          `failure = "..."` the test `if failure is not None` is decided; after the last `elif` of the chain that may set it,
+          only the initial `None` arrives).  The test has no effect of its own, so the paths are the same paths.
+
+        Path queries then respect such flags instead of treating every test of them as undecided."""
         fn = self.func.node
         if isinstance(fn, ast.Lambda):
             return
-        stores: dict[str, list] = {}
-        bad: set[str] = set(self.func.params)
+        TOP, NN, NNT, UNSET = ("top",), ("notnone",), ("notnone-truthy",), ("unset",)
+
+        def abstract(v: ast.expr):
+            if isinstance(v, ast.Constant):
+                return ("c", type(v.value).__name__, v.value)
+            if isinstance(v, ast.JoinedStr):
+                return NNT if any(isinstance(x, ast.Constant) and x.value for x in v.values) else NN
+            if isinstance(v, ast.Tuple) and not any(isinstance(x, ast.Starred) for x in v.elts):
+                return NNT if v.elts else ("c", "empty", ())
+            # a list / set / dict display is a fresh MUTABLE object: its truth value holds until the object is changed in
+            # place or handed to someone who may change it (see `touch` below)
+            if isinstance(v, (ast.List, ast.Set)) and not any(isinstance(x, ast.Starred) for x in v.elts):
+                return ("m", bool(v.elts))
+            if isinstance(v, ast.Dict):
+                if not v.keys:
+                    return ("m", False)
+                return ("m", True) if any(k is not None for k in v.keys) else NN
+            if isinstance(v, (ast.ListComp, ast.SetComp, ast.DictComp, ast.GeneratorExp, ast.Lambda)):
+                return NN
+            # the result of instantiating a class (a call of a CapWords name: Decimal(x), HttpResponse(), bytes()...) is an
+            # object, never None; its truth value is not known
+            if isinstance(v, ast.Call):
+                fn_ = v.func.attr if isinstance(v.func, ast.Attribute) else v.func.id if isinstance(v.func, ast.Name) else ""
+                if fn_[:1].isupper() and not fn_.isupper() or fn_ in ("bytes", "bytearray", "str", "int", "float", "list", "dict", "set", "tuple", "frozenset", "len", "bool"):
+                    return NN
+            return TOP
+
+        def decide(val, test: ast.expr):
+            """outcome of ``test`` for abstract value ``val``: True / False / None (not decided)"""
+            if val in (TOP, UNSET):
+                return None
+            if val[0] == "m":
+                if isinstance(test, ast.Name):
+                    return val[1]
+                if isinstance(test.ops[0], (ast.Is, ast.IsNot)) and test.comparators[0].value is None:
+                    return isinstance(test.ops[0], ast.IsNot)
+                return None
+            if isinstance(test, ast.Name):
+                if val == NNT:
+                    return True
+                if val == NN:
+                    return None
+                return bool(val[2])
+            op, k = test.ops[0], test.comparators[0].value
+            if isinstance(op, (ast.Is, ast.IsNot)):
+                if k is not None:
+                    return None
+                isn = val[0] == "c" and val[1] == "NoneType"
+                return isn if isinstance(op, ast.Is) else not isn
+            # == / != against a constant
+            if val[0] != "c" or val[1] == "empty":
+                if k is None:
+                    return isinstance(op, ast.NotEq)
+                return None
+            eq = val[2] == k and (type(val[2]) is type(k) or (isinstance(val[2], (int, float)) and isinstance(k, (int, float))))
+            return eq if isinstance(op, ast.Eq) else not eq
+
+        def flag_test(e: ast.expr):
+            if isinstance(e, ast.Name):
+                return e.id
+            if isinstance(e, ast.Compare) and len(e.ops) == 1 and isinstance(e.left, ast.Name) and isinstance(e.comparators[0], ast.Constant) \
+                    and isinstance(e.ops[0], (ast.Is, ast.IsNot, ast.Eq, ast.NotEq)):
+                return e.left.id
+            return None
+
+        tests_of: dict[str, list[Node]] = {}
+        for n in self.nodes:
+            if n.kind == "test":
+                v = flag_test(n.exprs[0])
+                if v is not None:
+                    tests_of.setdefault(v, []).append(n)
+        if not tests_of:
+            return
+        stores: dict[str, dict[int, tuple]] = {}
+        bad: set[str] = set()
         for n in self.nodes:
             a = n.ast
             if a is None:
                 continue
-            if n.kind == "stmt" and isinstance(a, ast.Assign) and len(a.targets) == 1 and isinstance(a.targets[0], ast.Name) \
-                    and isinstance(a.value, ast.Constant) and (a.value.value is None or isinstance(a.value.value, bool)):
-                stores.setdefault(a.targets[0].id, []).append(n)
-                continue
-            # any other binding of a name disqualifies it
-            roots = []
-            if n.kind == "stmt":
+            if n.kind == "stmt" and type(a) is ast.Assign and len(a.targets) == 1 and isinstance(a.targets[0], ast.Name):
+                stores.setdefault(a.targets[0].id, {})[n.id] = abstract(a.value)
+                roots = [a.value]
+            elif n.kind == "stmt" and type(a) is ast.AnnAssign and isinstance(a.target, ast.Name) and a.value is not None:
+                stores.setdefault(a.target.id, {})[n.id] = abstract(a.value)
+                roots = [a.value]
+            elif n.kind == "stmt":
                 roots = [a]
             elif n.kind == "for":
                 roots = [a.target]
             elif n.kind == "with_enter":
                 roots = [it.optional_vars for it in a.items if it.optional_vars is not None]
-            elif n.kind == "handler" and a.name:
-                bad.add(a.name)
+            elif n.kind == "handler":
+                roots = []
+                if a.name:
+                    bad.add(a.name)
             elif n.kind == "funcdef":
+                roots = []
                 bad.add(a.name)
+                for x in ast.walk(a):
+                    if isinstance(x, ast.Nonlocal):
+                        bad.update(x.names)
+            else:
+                roots = []
+            # any other binding of a name disqualifies it
             for r in roots:
                 for x in ast.walk(r):
                     if isinstance(x, ast.Name) and isinstance(x.ctx, (ast.Store, ast.Del)):
@@ -164,44 +254,86 @@ class CFG:
                 for x in walk_expr(e):
                     if isinstance(x, ast.NamedExpr) and isinstance(x.target, ast.Name):
                         bad.add(x.target.id)
-        flags = {k: v for k, v in stores.items() if k not in bad}
-        if not flags:
-            return
-        tests = [n for n in self.nodes if n.kind == "test" and isinstance(n.exprs[0], ast.Name) and n.exprs[0].id in flags]
-        if not tests:
-            return
-        UNSET = "<unset>"
-        for name, defs in flags.items():
-            if not any(t.exprs[0].id == name for t in tests):
+        # nodes at which the object a flag names may be changed in place or escapes to code that may change it: a subscript
+        # / attribute store or delete on it, a method call on it, the bare name handed to a call, stored into something,
+        # put into a display, yielded, awaited or captured by a nested function.  There a mutable value's truth is forgotten.
+        touch: dict[str, set[int]] = {}
+        for n in self.nodes:
+            roots = [n.ast] if n.kind in ("stmt", "funcdef") and n.ast is not None else [e for e in n.exprs if e is not None]
+            for r in roots:
+                plain_rhs = r.value if type(r) in (ast.Assign, ast.AnnAssign) and isinstance(getattr(r, "value", None), ast.Name) and all(
+                    isinstance(t, ast.Name) for t in (r.targets if isinstance(r, ast.Assign) else [r.target])) else None
+                test_names = set()
+                if n.kind == "test":
+                    e0 = n.exprs[0]
+                    if isinstance(e0, ast.Name):
+                        test_names.add(id(e0))
+                    elif isinstance(e0, ast.Compare) and isinstance(e0.left, ast.Name):
+                        test_names.add(id(e0.left))
+                for x in ast.walk(r):
+                    if isinstance(x, ast.Name) and isinstance(x.ctx, ast.Load) and x.id in tests_of and id(x) not in test_names:
+                        # any use other than being tested (or read as a subscript/attribute base, handled next) lets it escape
+                        touch.setdefault(x.id, set()).add(n.id)
+        params = set(self.func.params)
+        for name, tests in tests_of.items():
+            defs = stores.get(name)
+            if name in bad or not defs or all(v == TOP for v in defs.values()):
                 continue
-            def_val = {d.id: d.ast.value.value for d in defs}
-            IN: dict[int, set] = {self.entry.id: {UNSET}}
-            work = deque([self.entry.id])
-            while work:
-                u = work.popleft()
-                cur = IN.get(u, set())
-                for dst, label, _exc in self.nodes[u].succ:
-                    out = {def_val[u]} if (u in def_val and label != "x") else cur
-                    before = IN.setdefault(dst, set())
-                    if not out <= before:
-                        before |= out
-                        work.append(dst)
-            for t in tests:
-                if t.exprs[0].id != name:
-                    continue
-                vals = IN.get(t.id)
-                if not vals or UNSET in vals:
-                    continue
-                if all(bool(v) for v in vals):
-                    self._drop_edges(t, "F")
-                elif not any(bool(v) for v in vals):
-                    self._drop_edges(t, "T")
+            tch = touch.get(name, set())
+            for _round in range(4):
+                IN: dict[int, set] = {self.entry.id: {TOP if name in params else UNSET}}
+                work = deque([self.entry.id])
+                while work:
+                    u = work.popleft()
+                    cur = IN.get(u, set())
+                    for dst, label, _exc in self.nodes[u].succ:
+                        if u in defs and label != "x":
+                            out = {defs[u]}
+                        elif u in tch:
+                            out = {NN if v[0] == "m" else v for v in cur}
+                        else:
+                            out = cur
+                        before = IN.setdefault(dst, set())
+                        if not out <= before:
+                            before |= out
+                            work.append(dst)
+                changed = False
+                for t in tests:
+                    vals = IN.get(t.id)
+                    if not vals:
+                        continue
+                    outs = {decide(v, t.exprs[0]) for v in vals}
+                    if outs == {True}:
+                        changed |= self._drop_edges(t, "F")
+                        continue
+                    if outs == {False}:
+                        changed |= self._drop_edges(t, "T")
+                        continue
+                    # thread the incoming edges that decide the test
+                    for (u, label, exc) in list(t.pred):
+                        ev = {defs[u]} if (u in defs and label != "x") else ({NN if v[0] == "m" else v for v in IN.get(u, set())} if u in tch else IN.get(u, set()))
+                        eo = {decide(v, t.exprs[0]) for v in ev}
+                        if len(eo) != 1 or None in eo or not ev:
+                            continue
+                        want = "T" if eo == {True} else "F"
+                        dsts = [d for (d, l, _e) in t.succ if l == want]
+                        if len(dsts) != 1 or any(l == "x" for (_d, l, _e) in t.succ):
+                            continue
+                        src = self.nodes[u]
+                        src.succ = [e for e in src.succ if e != (t.id, label, exc)]
+                        t.pred = [p for p in t.pred if p != (u, label, exc)]
+                        self._edge(u, dsts[0], label, exc)
+                        changed = True
+                if not changed:
+                    break
 
-    def _drop_edges(self, n: Node, label: str) -> None:
-        for e in [e for e in n.succ if e[1] == label]:
+    def _drop_edges(self, n: Node, label: str) -> bool:
+        hit = [e for e in n.succ if e[1] == label]
+        for e in hit:
             n.succ.remove(e)
             d = self.nodes[e[0]]
             d.pred = [p for p in d.pred if not (p[0] == n.id and p[1] == label)]
+        return bool(hit)
 
     # ------------------------------------------------------------------ construction helpers
     def _new(self, kind, a, exprs, lineno=None) -> Node:
@@ -388,6 +520,14 @@ class CFG:
             v = None
             if isinstance(src.ast, InlineReturn) and edge[1] == "n":
                 v = _static_truth(e, src.ast.targets[0].id, src.ast.value)
+                if v is None and isinstance(e, ast.Name) and e.id == src.ast.targets[0].id and _pure_condition(src.ast.value):
+                    # the helper returned a comparison and the caller tests the result: on this edge the test IS that
+                    # comparison (pure, so reading it again where it is tested changes nothing) - its outcomes stay edges of
+                    # the caller's graph, where gates are looked for
+                    t2, f2 = self._cond(src.ast.value, [edge])
+                    thr_t += t2
+                    thr_f += f2
+                    continue
             if v is True:
                 thr_t.append(edge)
             elif v is False:
@@ -664,6 +804,30 @@ class CFG:
 
     def stats(self) -> tuple[int, int]:
         return len(self.nodes), sum(len(n.succ) for n in self.nodes)
+
+
+def _pure_condition(e: ast.AST) -> bool:
+    """a comparison / and / or / not over names, constants, attribute chains and subscripts of those"""
+    def pure(x) -> bool:
+        if isinstance(x, (ast.Constant, ast.Name)):
+            return True
+        if isinstance(x, ast.Attribute):
+            return pure(x.value)
+        if isinstance(x, ast.Subscript):
+            return pure(x.value) and (pure(x.slice) if not isinstance(x.slice, ast.Slice) else all(y is None or pure(y) for y in (x.slice.lower, x.slice.upper, x.slice.step)))
+        if isinstance(x, (ast.Tuple, ast.List)):
+            return all(pure(y) for y in x.elts)
+        if isinstance(x, ast.Call) and isinstance(x.func, ast.Name) and x.func.id in ("len", "isinstance") and not x.keywords:
+            return all(pure(y) for y in x.args)
+        return False
+
+    if isinstance(e, ast.Compare):
+        return pure(e.left) and all(pure(c) for c in e.comparators)
+    if isinstance(e, ast.BoolOp):
+        return all(_pure_condition(v) or pure(v) for v in e.values)
+    if isinstance(e, ast.UnaryOp) and isinstance(e.op, ast.Not):
+        return _pure_condition(e.operand) or pure(e.operand)
+    return False
 
 
 def _static_truth(e: ast.AST, var: str, val: ast.AST):
